@@ -87,6 +87,7 @@ impl Property for C01 {
             }
         };
         let keys = all_keys(&case.dic);
+        let mut judged: Vec<(String, Option<String>)> = Vec::new();
         for t in &case.texts {
             let text = render_pieces(&keys, t);
             if f7_guard(&mut rep, &case.dic, &case.cfg, &text, ctx.strict) {
@@ -96,6 +97,7 @@ impl Property for C01 {
                 Ok(n) => Some(n),
                 Err(_) => None,
             };
+            judged.push((text.clone(), norm.clone()));
             for mode in MODES {
                 let ml = match analyze(&dict, &text, mode, None) {
                     Ok(ml) => ml,
@@ -190,6 +192,56 @@ impl Property for C01 {
                             Err(_) => {}
                         }
                     }
+                }
+            }
+        }
+        // one tokenizer and one result list over all the texts of the case, with empty texts in between (also directly
+        // after an analysis whose result was never collected): every collected list must partition ITS text, and an
+        // empty text yields no morphemes whatever the objects held before
+        if !judged.is_empty() {
+            let mut seq: Vec<(String, Option<String>, bool)> = Vec::new();
+            for (i, (t, n)) in judged.iter().enumerate() {
+                seq.push((t.clone(), n.clone(), true));
+                if i % 2 == 1 {
+                    seq.push((String::new(), Some(String::new()), true));
+                }
+            }
+            seq.push((String::new(), Some(String::new()), true));
+            seq.push((judged[0].0.clone(), judged[0].1.clone(), false));
+            seq.push((String::new(), Some(String::new()), true));
+            let mode = MODES[judged[0].0.len() % 3];
+            let res = guarded(|| -> Result<(), (String, String)> {
+                let mut tok = sudachi::analysis::stateful_tokenizer::StatefulTokenizer::new(&dict, mode);
+                let mut list = sudachi::prelude::MorphemeList::empty(&dict);
+                for (k, (text, norm, collect)) in seq.iter().enumerate() {
+                    tok.reset().push_str(text);
+                    if tok.do_tokenize().is_err() {
+                        continue;
+                    }
+                    if !*collect {
+                        continue;
+                    }
+                    if list.collect_results(&mut tok).is_err() {
+                        continue;
+                    }
+                    check_partition(text, &list).map_err(|(c, d)| (format!("reused:{}", c), format!("step {} of the reused tokenizer / list, text {:?} mode {}: {}", k, text, mode_name(mode), d)))?;
+                    if let Some(n) = norm {
+                        if list.is_empty() != n.is_empty() {
+                            return Err(("reused:empty-iff".into(), format!("step {} of the reused tokenizer / list, text {:?} mode {}: {} morphemes but the normalised text is {:?}", k, text, mode_name(mode), list.len(), n)));
+                        }
+                    }
+                }
+                Ok(())
+            });
+            match res {
+                Ok(Ok(())) => rep.class("reused tokenizer and list"),
+                Ok(Err((c, d))) => {
+                    rep.fail(&c, d);
+                    return rep;
+                }
+                Err(p) => {
+                    rep.fail(&format!("reused-panic:{}", panic_site(&p)), format!("texts {:?} on one tokenizer / list: {}", seq.iter().map(|x| x.0.clone()).collect::<Vec<_>>(), p));
+                    return rep;
                 }
             }
         }
